@@ -81,3 +81,6 @@ import Lungo.Proofs.OplogLaws
 -- PENDING import Lungo.Proofs.UpdateDesc
 -- PENDING import Lungo.Props.C08
 -- PENDING import Lungo.Props.C19
+import Lungo.Model.ApiFlow
+import Lungo.Expected.ApiFlow
+import Lungo.Props.C17
